@@ -286,13 +286,13 @@ fn header_time_offset(uri: &uri::Rsync, notify: Option<&uri::Https>) -> usize {
 /// `ident(manifest bytes) -> version`, `obj(uri) -> id`.
 fn open_view(path: &Path, uri: &uri::Rsync, notify: Option<&uri::Https>, scratch: &Path,
              ident: &dyn Fn(&[u8]) -> u64, obj: &dyn Fn(u64, &str) -> u64, sort: bool) -> (Value, String) {
-    if !path.exists() { return (json!("absent"), "PVAbsent".into()) }
+    if !path.exists() { return (json!("absent"), "OAbsent".into()) }
     let copy = scratch.join("view.bin");
     std::fs::copy(path, &copy).unwrap();
     let r = match StoredPoint::verif_open(copy.clone(), uri, notify) {
-        Err(_) => (json!("failed"), "PVFailed".to_string()),
+        Err(_) => (json!("failed"), "OFailed".to_string()),
         Ok(mut point) => match point.manifest().map(|m| m.manifest.clone()) {
-            None => (json!("none"), "PVNone".into()),
+            None => (json!("none"), "ONone".into()),
             Some(m) => {
                 let v = ident(&m);
                 let mut js = Vec::new();
@@ -301,8 +301,8 @@ fn open_view(path: &Path, uri: &uri::Rsync, notify: Option<&uri::Https>, scratch
                     match o { Ok(o) => js.push(obj(v, &o.uri.to_string())), Err(_) => { broken = true; break } }
                 }
                 if sort { js.sort(); }
-                if broken { (json!("broken"), "PVBroken".into()) }
-                else { (json!({"version": v, "objects": js}), format!("(PVData {} {})", v, coq_nlist(js.iter()))) }
+                if broken { (json!("broken"), "OBroken".into()) }
+                else { (json!({"version": v, "objects": js}), format!("(OData {} {})", v, coq_nlist(js.iter()))) }
             }
         }
     };
@@ -314,9 +314,9 @@ fn status_view(cache: &Path) -> (Value, String) {
     let config = Config::default_with_paths(Default::default(), cache.to_path_buf());
     let store = Store::new(&config).expect("store");
     match store.status() {
-        Ok(None) => (json!("absent"), "SVAbsent".into()),
-        Ok(Some(_)) => (json!("some"), "SVSome".into()),
-        Err(_) => (json!("failed"), "SVFailed".into()),
+        Ok(None) => (json!("absent"), "OSAbsent".into()),
+        Ok(Some(_)) => (json!("some"), "OSSome".into()),
+        Err(_) => (json!("failed"), "OSFailed".into()),
     }
 }
 
@@ -324,11 +324,11 @@ fn ta_view(cache: &Path, uri: &TalUri, ident: &dyn Fn(&[u8]) -> Option<u64>) -> 
     let config = Config::default_with_paths(Default::default(), cache.to_path_buf());
     let store = Store::new(&config).expect("store");
     match store.start().load_ta(uri) {
-        Err(_) => (json!("failed"), "(TVSome 98)".into()),
-        Ok(None) => (json!("absent"), "TVAbsent".into()),
+        Err(_) => (json!("failed"), "(OTSome 98)".into()),
+        Ok(None) => (json!("absent"), "OTAbsent".into()),
         Ok(Some(b)) => match ident(&b) {
-            Some(v) => (json!({"version": v}), format!("(TVSome {})", v)),
-            None => (json!("corrupt"), "(TVSome 99)".into()),
+            Some(v) => (json!({"version": v}), format!("(OTSome {})", v)),
+            None => (json!("corrupt"), "(OTSome 99)".into()),
         }
     }
 }
@@ -442,33 +442,35 @@ fn probe_unit(init: &Value, run: &Value) -> Vec<u64> {
 fn gen_unit(rng: &mut Rng, tier: &str) -> Vec<(String, Value)> {
     let thorough = tier == "thorough";
     let mut cases = Vec::new();
-    let mut scenarios: Vec<(&str, Value, Value, bool)> = Vec::new();   // class, init, run, all cuts?
+    // class, init, run, the cuts tried at every write kill point in the quick tier
+    let mut scenarios: Vec<(&str, Value, Value, Vec<u64>)> = Vec::new();
+    let few = vec![5u64, 1000000];
     // the operations one by one, from every kind of prior state of the point
-    scenarios.push(("create", json!([]), json!([op_open(0)]), true));
-    scenarios.push(("create.rrdp", json!([]), json!([op_open(1)]), false));
-    scenarios.push(("rewrite", json!([op_open(0)]), json!([op_open(0)]), true));
-    scenarios.push(("first_update", json!([]), json!([op_open(1), op_update(1, 1, 2, 0, true)]), true));
-    scenarios.push(("update", json!([op_open(0), op_update(0, 1, 2, 0, true)]), json!([op_open(0), op_update(0, 2, 3, 0, true)]), false));
-    scenarios.push(("update.no_objects", json!([op_open(0), op_update(0, 1, 1, 0, true)]), json!([op_open(0), op_update(0, 2, 0, 0, true)]), false));
-    scenarios.push(("update.abort", json!([op_open(0), op_update(0, 1, 2, 0, true)]), json!([op_open(0), op_update(0, 2, 2, 0, false)]), false));
-    scenarios.push(("update.big_object", json!([op_open(0), op_update(0, 1, 1, 0, true)]), json!([op_open(0), op_update(0, 2, 3, 20000, true)]), false));
-    scenarios.push(("reject", json!([op_open(0), op_update(0, 1, 2, 0, true)]), json!([op_open(0), op_reject(0)]), true));
-    scenarios.push(("reject_then_update", json!([op_open(1), op_update(1, 1, 1, 0, true)]), json!([op_open(1), op_reject(1), op_update(1, 2, 2, 0, true)]), false));
-    scenarios.push(("status.first", json!([]), json!([op_done()]), true));
-    scenarios.push(("status.again", json!([op_done()]), json!([op_done()]), true));
-    scenarios.push(("ta.first", json!([]), json!([op_ta(0, 0)]), true));
-    scenarios.push(("ta.again", json!([op_ta(0, 0), op_ta(1, 0)]), json!([op_ta(0, 1), op_ta(1, 0)]), true));
+    scenarios.push(("create", json!([]), json!([op_open(0)]), vec![0, 1, 2, 5, 6, 24, 25, 26, 28, 29, 30, 37, 38, 39]));
+    scenarios.push(("create.rrdp", json!([]), json!([op_open(1)]), vec![0, 54, 55]));
+    scenarios.push(("rewrite", json!([op_open(0)]), json!([op_open(0)]), vec![0, 29, 37, 38]));
+    scenarios.push(("first_update", json!([]), json!([op_open(1), op_update(1, 1, 2, 0, true)]), few.clone()));
+    scenarios.push(("update", json!([op_open(0), op_update(0, 1, 2, 0, true)]), json!([op_open(0), op_update(0, 2, 3, 0, true)]), few.clone()));
+    scenarios.push(("update.no_objects", json!([op_open(0), op_update(0, 1, 1, 0, true)]), json!([op_open(0), op_update(0, 2, 0, 0, true)]), vec![3]));
+    scenarios.push(("update.abort", json!([op_open(0), op_update(0, 1, 2, 0, true)]), json!([op_open(0), op_update(0, 2, 2, 0, false)]), vec![7]));
+    scenarios.push(("update.big_object", json!([op_open(0), op_update(0, 1, 1, 0, true)]), json!([op_open(0), op_update(0, 2, 3, 9000, true)]), vec![8500]));
+    scenarios.push(("reject", json!([op_open(0), op_update(0, 1, 2, 0, true)]), json!([op_open(0), op_reject(0)]), vec![0, 20, 38]));
+    scenarios.push(("reject_then_update", json!([op_open(1), op_update(1, 1, 1, 0, true)]), json!([op_open(1), op_reject(1), op_update(1, 2, 2, 0, true)]), vec![9]));
+    scenarios.push(("status.first", json!([]), json!([op_done()]), vec![0, 1, 5, 8, 9, 10]));
+    scenarios.push(("status.again", json!([op_done()]), json!([op_done()]), vec![0, 4, 9]));
+    scenarios.push(("ta.first", json!([]), json!([op_ta(0, 0)]), vec![0, 1, 6, 7, 8]));
+    scenarios.push(("ta.again", json!([op_ta(0, 0), op_ta(1, 0)]), json!([op_ta(0, 1), op_ta(1, 0)]), vec![0, 3, 7]));
     // a whole "run": trust anchors, three points in different states, status
     scenarios.push(("whole_run",
         json!([op_ta(0, 0), op_open(0), op_update(0, 1, 2, 0, true), op_open(1), op_open(2), op_update(2, 1, 1, 0, true), op_done()]),
         json!([op_ta(0, 1), op_open(0), op_update(0, 2, 2, 0, true), op_open(1), op_update(1, 1, 1, 0, true),
-               op_open(2), op_reject(2), op_ta(1, 0), op_done()]), false));
-    for (class, init, run, all_cuts) in &scenarios {
+               op_open(2), op_reject(2), op_ta(1, 0), op_done()]), vec![2]));
+    for (class, init, run, quick_cuts) in &scenarios {
         let labels = probe_unit(init, run);
         for k in 1..=(labels.len() as u64 + 1) {
             cases.push((format!("unit.{}", class), json!({"stream": "unit", "init": init, "run": run, "k": k, "cut": null})));
             if k as usize <= labels.len() && is_write_label(labels[k as usize - 1]) {
-                let cuts: Vec<u64> = if *all_cuts || thorough { (0..=40).collect() } else { vec![0, 1, 5, 17, 1000000] };
+                let cuts: Vec<u64> = if thorough { (0..=60).chain([8191, 8192, 8193, 1000000]).collect() } else { quick_cuts.clone() };
                 for c in cuts {
                     cases.push((format!("unit.{}.cut", class), json!({"stream": "unit", "init": init, "run": run, "k": k, "cut": c})));
                 }
@@ -476,7 +478,7 @@ fn gen_unit(rng: &mut Rng, tier: &str) -> Vec<(String, Value)> {
         }
     }
     // random op sequences over three points, two trust anchors and the status file
-    let n = if thorough { 60 } else { 8 };
+    let n = if thorough { 60 } else { 6 };
     for _ in 0..n {
         let mut r = rng.fork();
         let mk = |r: &mut Rng, len: u64| -> Value {
@@ -505,7 +507,7 @@ fn gen_unit(rng: &mut Rng, tier: &str) -> Vec<(String, Value)> {
         let run = mk(&mut r, lr);
         let labels = probe_unit(&init, &run);
         if labels.is_empty() { continue }
-        let picks = if thorough { labels.len() } else { 4.min(labels.len()) };
+        let picks = if thorough { labels.len() } else { 3.min(labels.len()) };
         for _ in 0..picks {
             let k = 1 + r.below(labels.len() as u64);
             let cut = if is_write_label(labels[k as usize - 1]) && r.chance(2, 3) { Some(r.below(60)) } else { None };
@@ -585,7 +587,7 @@ fn e2e_universe(dir: &Path, built: &Built) -> Universe {
 
 fn n_objects(built: &Built, ca: &str, v: usize) -> usize {
     let c = built.truth.cas.iter().find(|c| c.id == ca).unwrap();
-    c.versions[v].entries.iter().filter(|e| e.listed && e.uri != c.crl_uri).count()
+    c.versions[v].entries.iter().filter(|e| e.listed).count() + c.versions[v].crl.listed as usize
 }
 
 fn template() -> &'static Template {
@@ -650,9 +652,11 @@ fn run_e2e(input: &Value) -> CaseOut {
             ca.versions.iter().position(|v| v.mft.sha256 == sha).map(|v| v as u64).unwrap_or(99)
         };
         let obj = |v: u64, o: &str| -> u64 {
-            // objects are numbered by their position among the listed non-CRL entries of that version
-            ca.versions.get(v as usize).and_then(|v| v.entries.iter().filter(|e| e.listed && e.uri != ca.crl_uri)
-                .position(|e| e.uri == o)).map(|p| p as u64).unwrap_or(99)
+            // objects are numbered by their position among the listed entries of that version, the CRL comes last
+            ca.versions.get(v as usize).and_then(|v| {
+                let listed: Vec<&str> = v.entries.iter().filter(|e| e.listed).map(|e| e.uri.as_str()).collect();
+                if o == ca.crl_uri && v.crl.listed { Some(listed.len()) } else { listed.iter().position(|e| *e == o) }
+            }).map(|p| p as u64).unwrap_or(99)
         };
         let (j, c) = open_view(p, uri, None, tmp.path(), &ident, &obj, true);
         plan.ca_version.insert(ca.id.clone(), j.get("version").and_then(|v| v.as_u64()).map(|v| v as usize));
